@@ -360,3 +360,37 @@ func validateSQLModel(tier string, seed int, work string) (string, error) {
 	}
 	return "", fmt.Errorf("%v: %s", err, tail(string(out), 600))
 }
+
+func harnessBodyContains(src, fn, needle string) bool {
+	i := strings.Index(src, "func "+fn+"(")
+	if i < 0 {
+		return false
+	}
+	body := src[i:]
+	if j := strings.Index(body[1:], "\nfunc "); j > 0 {
+		body = body[:j+1]
+	}
+	return strings.Contains(body, needle)
+}
+
+// validateJSONModel runs the native differential test of verifrt's JSON string-map codec against encoding/json.
+func validateJSONModel(work string) (string, error) {
+	ov, err := overlayFiles(nil)
+	if err != nil {
+		return "", err
+	}
+	ov[filepath.Join(repoRoot, "internal/queue/zz_verif_jsonmodel_test.go")] = filepath.Join(verifRoot, "rt/validate/zz_verif_jsonmodel_test.go")
+	ovJSON, _ := json.Marshal(map[string]any{"Replace": ov})
+	of := filepath.Join(work, "overlay-jsonmodel.json")
+	os.WriteFile(of, ovJSON, 0o644)
+	cmd := exec.Command("go", "test", "-mod=mod", "-tags", "verif", "-vet=off", "-count=1", "-timeout", "20m", "-overlay", of, "-run", "^TestVerifJSONModel$", "-v", "./internal/queue")
+	cmd.Dir = repoRoot
+	cmd.Env = append(os.Environ(), "GOFLAGS=-mod=mod", "GOPROXY=off")
+	out, err := cmd.CombinedOutput()
+	for _, line := range strings.Split(string(out), "\n") {
+		if i := strings.Index(line, "VERIF-JSONMODEL-VALIDATION ok"); i >= 0 && err == nil {
+			return "json-model validated against encoding/json (native differential: every code point, every 1-2 byte string, random documents): " + strings.TrimSpace(line[i+len("VERIF-JSONMODEL-VALIDATION ok"):]), nil
+		}
+	}
+	return "", fmt.Errorf("%v: %s", err, tail(string(out), 600))
+}
